@@ -167,9 +167,10 @@ def token_rule(ctx, res):
     res.floor(rule, "token_sites", 3)
 
 
-def handshake_rule(ctx, res):
+def handshake_rule(ctx, res, rule="C17.handshake", dedup=True):
+    """dedup=True (C17): in object mode the entry must be *inserted* (duplicates collapse); dedup=False (C16): appended or
+    inserted, typed maps have no duplicate keys."""
     P = ctx.P
-    rule = "C17.handshake"
     try:
         sk = shape.find_inst(P, r"^<json_syntax::SerializeMap as .*SerializeMap>::serialize_key::<str>$")
         sv = shape.find_inst(P, r"^<json_syntax::SerializeMap as .*SerializeMap>::serialize_value::<bool>$")
@@ -247,7 +248,7 @@ def handshake_rule(ctx, res):
             o = outs[0]
             ins = [e for e in shape.events(o) if e[0] in ("obj_insert", "obj_push")]
             tags = [e[0] for e in ins]
-            ok = tags == ["obj_insert"] and ins[0][1][1] == keytok and C16.vname(P, ins[0][1][2]) == "Boolean" and ins[0][1][2].fields[0] == b
+            ok = (tags == ["obj_insert"] or (not dedup and tags == ["obj_push"])) and ins[0][1][1] == keytok and C16.vname(P, ins[0][1][2]) == "Boolean" and ins[0][1][2].fields[0] == b
             after = o.heap[me.id]
             ok = ok and after.variant == OBJ and isinstance(after.fields[1], Agg) and after.fields[1].variant == 0
         res.ob(ok, rule, rule + "/value/object-mode", "in object mode serialize_value must *insert* (pending key, serialized value) — duplicates collapse to the first position with the last value; it does %r" % (tags,),
